@@ -216,9 +216,36 @@ def rule_d(ctx):
     ctx.instance(R)
     am = AM(f)
     sc = f.params[1]
-    ok = am.has(f.node, "result_image = self.copy()") is not None and am.has(f.node, "return result_image") is not None and any(
-        am.has(f.node, t) is not None for t in (f"result_image.img *= {sc}", f"result_image.img = result_image.img * {sc}", f"result_image.img = {sc} * result_image.img"))
-    ctx.ob(R, f.qname, "__mul__ scales a copy of the image", ok, str(am.show()), f.node)
+    copy_ok = am.has(f.node, "result_image = self.copy()") is not None and am.has(f.node, "return result_image") is not None
+    ctx.ob(R, f.qname, "__mul__ works on a copy of the image and returns it", copy_ok, str(am.show()), f.node)
+    RI = am.actual("result_image") or "result_image"
+    from ..algebra import NotPolynomial, Poly, ToPoly
+
+    stores = [s_ for s_ in ast.walk(f.node) if isinstance(s_, (ast.Assign, ast.AugAssign)) and norm(s_.targets[0] if isinstance(s_, ast.Assign) else s_.target) == f"{RI}.img"]
+    X, S = Poly.atom("X"), Poly.atom("S")
+
+    def atom(n):
+        t = norm(n)
+        return "X" if t in (f"{RI}.img", "self.img", "self.copy().img") else ("S" if t == sc else None)
+    verdict, why = None, ""
+    if len(stores) == 1:
+        st = stores[0]
+        e = expand(f.node, st.value)
+        try:
+            p = ToPoly(atomize=atom)(e)
+            if isinstance(st, ast.AugAssign):
+                p = {ast.Mult: X * p, ast.Add: X + p, ast.Sub: X - p}.get(type(st.op), lambda: None)
+                p = p if not callable(p) else None
+            verdict = p is not None and p == X * S
+            why = f"`{norm(st)[:80]}` gives {p!r}, not image data times scalar"
+        except NotPolynomial:
+            inner = [c for c in ast.walk(e) if isinstance(c, ast.Call)]
+            if inner and any(isinstance(b, ast.BinOp) and isinstance(b.op, ast.Mult) for b in ast.walk(e)):
+                verdict, why = False, f"`{norm(st)[:80]}`: the product is post-processed by `{norm(inner[0].func)}` (raw-array arithmetic does not do that: the dtype / values of the result differ from img.img * scalar)"
+    if verdict is None:
+        ctx.ob(R, f.qname, "__mul__ multiplies the copy's data by the scalar, nothing else", False, "store into the copy's data not found", f.node)
+    else:
+        ctx.ob(R, f.qname, "__mul__ multiplies the copy's data by the scalar, nothing else", verdict, why, stores[0], evidence=True)
     ctx.floor(R, 9)
 
 
